@@ -59,6 +59,132 @@ class WNode:
         return self.kind
 
 
+def default_tag_by_evaluation(model: Model, folder: Folder, fi: FuncInfo, sinks: Set[str], unset: Tuple[str, ...] = ("tag", "header")) -> Optional[TagConst]:
+    """The tag a write_* / push_* / read_* method ends up using when the caller passes none: the method (and the package
+    helpers it hands the tag on to) is followed with the `tag` / `header` parameters bound to None, assignments and
+    constant-decidable tests evaluated by the folder, until a call of one of `sinks` (the TLV packing routine, the
+    ASN1Writer constructor, the validating helper) is reached; the tag among its arguments is the default."""
+    UNSET = object()
+
+    def tag_of_args(call: ast.Call, module: str, env: Dict[str, Any]) -> Optional[TagConst]:
+        vals = []
+        for a in list(call.args) + [k.value for k in call.keywords]:
+            try:
+                vals.append(folder.fold(a, module, env, None))
+            except Unfoldable:
+                vals.append(UNSET)
+        for v in vals:
+            if isinstance(v, TagConst):
+                return v
+        cls_ = [v for v in vals if isinstance(v, EnumConst) and v.cls.endswith(".TagClass")]
+        flag = [v for v in vals if isinstance(v, bool)]
+        num = [v for v in vals if (isinstance(v, int) and not isinstance(v, bool)) or (isinstance(v, EnumConst) and not v.cls.endswith(".TagClass"))]
+        if len(cls_) == 1 and len(flag) == 1 and len(num) == 1:
+            return TagConst(cls_[0], num[0], flag[0])
+        return None
+
+    def callee_of(call: ast.Call, fi_: FuncInfo):
+        f = call.func
+        if isinstance(f, ast.Name):
+            q = model.resolve_name(fi_.module, f.id)
+            if q in model.classes:
+                return q, None
+            return q, model.functions.get(q) if q else None
+        if isinstance(f, ast.Attribute) and isinstance(f.value, ast.Name) and f.value.id in ("self", "cls") and fi_.cls:
+            mt = model.find_method(fi_.cls, f.attr)
+            return (mt.qualname if mt else None), mt
+        return None, None
+
+    def through_calls(e: ast.AST, fi_: FuncInfo, env: Dict[str, Any], depth: int) -> Optional[TagConst]:
+        for c in ast.walk(e):
+            if not isinstance(c, ast.Call):
+                continue
+            q, callee = callee_of(c, fi_)
+            if q in sinks:
+                t = tag_of_args(c, fi_.module, env)
+                if t is not None:
+                    return t
+            if callee is None or isinstance(callee.node, ast.Lambda) or callee.module != fi_.module or depth > 4:
+                continue
+            ps = callee.params()
+            off = 1 if callee.cls and not callee.is_staticmethod and isinstance(c.func, ast.Attribute) else 0
+            ps_ = ps[off:]
+            env2: Dict[str, Any] = {}
+            a_ = callee.node.args
+            allp = (a_.posonlyargs + a_.args)
+            for p_, d in list(zip(allp[len(allp) - len(a_.defaults):], a_.defaults)) + [(p2, d2) for p2, d2 in zip(a_.kwonlyargs, a_.kw_defaults) if d2 is not None]:
+                try:
+                    env2[p_.arg] = folder.fold(d, callee.module)
+                except Unfoldable:
+                    pass
+            for p_, a in [(ps_[i], a) for i, a in enumerate(c.args) if i < len(ps_)] + [(k.arg, k.value) for k in c.keywords if k.arg in ps_]:
+                try:
+                    env2[p_] = folder.fold(a, fi_.module, env, None)
+                except Unfoldable:
+                    env2.pop(p_, None)
+            r = run(callee.node.body, callee, env2, depth + 1)
+            if r is not None:
+                return r
+        return None
+
+    def run(stmts, fi_: FuncInfo, env: Dict[str, Any], depth: int) -> Optional[TagConst]:
+        for s_ in stmts:
+            if isinstance(s_, (ast.Assign, ast.AnnAssign)) and s_.value is not None:
+                tg = s_.targets if isinstance(s_, ast.Assign) else [s_.target]
+                try:
+                    val = folder.fold(s_.value, fi_.module, env, None)
+                except Unfoldable:
+                    r = through_calls(s_.value, fi_, env, depth)
+                    if r is not None:
+                        return r
+                    val = UNSET
+                for t_ in tg:
+                    for x in ast.walk(t_):
+                        if isinstance(x, ast.Name):
+                            if val is UNSET or not isinstance(t_, ast.Name):
+                                env.pop(x.id, None)
+                            else:
+                                env[x.id] = val
+                continue
+            if isinstance(s_, ast.If):
+                try:
+                    t = folder.fold(s_.test, fi_.module, env, None)
+                    branches = [s_.body if t else s_.orelse]
+                except Unfoldable:
+                    r = through_calls(s_.test, fi_, env, depth)
+                    if r is not None:
+                        return r
+                    branches = [s_.body, s_.orelse]
+                for b in branches:
+                    r = run(b, fi_, dict(env) if len(branches) > 1 else env, depth)
+                    if r is not None:
+                        return r
+                continue
+            if isinstance(s_, (ast.With, ast.For, ast.While, ast.Try)):
+                for fld in ("body", "orelse", "finalbody"):
+                    r = run(getattr(s_, fld, []) or [], fi_, env, depth)
+                    if r is not None:
+                        return r
+                continue
+            if isinstance(s_, (ast.Return, ast.Expr, ast.AugAssign, ast.Raise)):
+                r = through_calls(s_, fi_, env, depth)
+                if r is not None:
+                    return r
+                if isinstance(s_, (ast.Return, ast.Raise)):
+                    return None
+        return None
+    env0: Dict[str, Any] = {p_: None for p_ in fi.params() if p_ in unset}
+    a0 = fi.node.args
+    allp0 = a0.posonlyargs + a0.args
+    for p_, d in list(zip(allp0[len(allp0) - len(a0.defaults):], a0.defaults)) + [(p2, d2) for p2, d2 in zip(a0.kwonlyargs, a0.kw_defaults) if d2 is not None]:
+        if p_.arg not in env0:
+            try:
+                env0[p_.arg] = folder.fold(d, fi.module)
+            except Unfoldable:
+                pass
+    return run(fi.node.body, fi, env0, 0)
+
+
 class WriterExtractor:
     def __init__(self, model: Model):
         self.m = model
@@ -76,6 +202,9 @@ class WriterExtractor:
             if fi is None:
                 raise AnalysisError(f"ASN1Writer.{name} not found")
             tag = self._default_in(fi)
+            if tag is None:
+                from .anchors import asn1 as _aa
+                tag = default_tag_by_evaluation(self.m, self.folder, fi, {f.qualname for f in _aa(self.m).packer_family} | {f"{ASN1}.ASN1Writer"})
             if tag is None:
                 raise AnalysisError(f"default tag of ASN1Writer.{name} not found")
             self.default_tags[name] = tag
@@ -103,6 +232,9 @@ class WriterExtractor:
                             nxt = self.m.functions[q]
                 callee = nxt if tag is None else None
                 hops += 1
+            if not isinstance(tag, TagConst):
+                mfi = self.m.find_method(w.qualname, name)
+                tag = default_tag_by_evaluation(self.m, self.folder, mfi, {f.qualname for f in an.packer_family} | {f"{ASN1}.ASN1Writer"}) if mfi else None
             if not isinstance(tag, TagConst):
                 raise AnalysisError(f"default tag of ASN1Writer.{name} not found")
             self.default_tags[name] = tag
@@ -909,6 +1041,8 @@ class ReaderExtractor:
             if fi is None:
                 raise AnalysisError(f"ASN1Reader.{name} not found")
             tag = self._reader_default(fi, an)
+            if not isinstance(tag, TagConst):
+                tag = default_tag_by_evaluation(self.m, self.folder, fi, {an.validate.qualname})
             if not isinstance(tag, TagConst):
                 raise AnalysisError(f"default tag of ASN1Reader.{name} not recovered")
             self.default_tags[name] = tag
